@@ -415,7 +415,7 @@ func runC08(r *an.Run) {
 				}
 				// re-created from a forwarding package entry: built inside the loop
 				// over a package's SettleFails
-				if hdr := enclosingLoopHeader(f.Root(), lit); strings.HasSuffix(hdr, ".SettleFails") {
+				if hdr := c08LoopHeader(f.Root(), lit); strings.HasSuffix(hdr, ".SettleFails") {
 					pkg := regexpQuote(strings.TrimSuffix(hdr, ".SettleFails"))
 					pos := `uint16\(\$key\(` + pkg + `\.SettleFails\)\)`
 					got := c08RefCanon(f, kv["destRef"])
